@@ -197,9 +197,16 @@ def callers_data(chk: Check) -> None:
     chk.ob('PROV-raw-inputs-untouched', oc, len(stored) == 1 and stored[0].value is pp[0], 'the parsed inputs are what pre_process returns', kind='parsed-from-pre-process')
     init = prog.func('processes.Process.__init__')
     asg = [n for n in ast.walk(init.node) if isinstance(n, ast.Assign) and norm(n.targets[0]) == 'self._raw_inputs']
-    ok = len(asg) == 1 and 'utils.AttributesFrozendict(inputs)' in norm(asg[0].value)
+    # every value stored is None or a NEW frozen mapping built from the parameter (conditional expression or if/else alike)
+    ip = init.params[1] if len(init.params) > 1 else 'inputs'
+    vals = []
+    for a_ in asg:
+        v_ = a_.value
+        vals += [v_.body, v_.orelse] if isinstance(v_, ast.IfExp) else [v_]
+    ok = bool(asg) and all(norm(v_) == 'None' or (isinstance(v_, ast.Call) and last_name(v_) in ('AttributesFrozendict', 'Frozendict') and [norm(x) for x in v_.args] == [ip]) for v_ in vals) \
+        and any(isinstance(v_, ast.Call) for v_ in vals)
     chk.ob('PROV-raw-inputs-untouched', init, ok, 'raw_inputs is a new frozen mapping built from the caller\'s dictionary (the dictionary itself is not kept)', kind='raw-is-new-frozendict')
-    for f, node in __import__('plumpy_sa.rules', fromlist=['attr_writers']).attr_writers(prog, '_raw_inputs'):
+    for f, node in __import__('plumpy_sa.rules', fromlist=['effective_writers']).effective_writers(prog, '_raw_inputs'):
         chk.ob('PROV-raw-inputs-untouched', f, f.qualname in ('processes.Process.__init__', 'processes.Process.load_instance_state'), 'raw_inputs is assigned only at construction / load',
                node=node, kind='raw-writer', expr='_raw_inputs store')
     # namespace validation works on a copy of the values it is given
